@@ -35,11 +35,13 @@ NODE = {
 
 
 def callees_all(facts, f):
+    """callees of f and of the closures written inside it (a loop body turned into `iter().map(|x| ..)`)"""
     out = []
-    for bi, t in facts.mir_calls(f):
-        c = t.get("callee")
-        if c:
-            out.append(facts.callee_name(c))
+    for g in [f] + [c for c in facts.fns.values() if c.get("parent") == f["path"]]:
+        for bi, t in facts.mir_calls(g):
+            c = t.get("callee")
+            if c:
+                out.append(facts.callee_name(c))
     return out
 
 
@@ -144,7 +146,11 @@ def r09_2b(facts, res, table):
         f = facts.fns[e["fid"]]
         st["instances"] += 1
         cs = callees_all(facts, f)
-        ok = prim in cs
+        prims = prim if isinstance(prim, tuple) else (prim,)
+        ok = any(p_ in cs for p_ in prims)
+        if name == "concat":
+            ok = ok and STRING_TRY in cs        # every argument goes through string()
+        prim = " or ".join(prims)
         if name == "not":
             ok = ok and nots(f["body"]) == 1
         if name == "boolean":
